@@ -113,9 +113,20 @@ func VerifIncludeGraph() {
 // subroutine declarations permuted and with another map iteration order,
 // reports the same multiset of diagnostics (rule, severity, message).
 func VerifDeterministic() {
-	callees := []string{"", "a", "b", "nosuch"}
+	// a call graph over four helper subroutines: chains of up to four inferred
+	// edges below vcl_recv, shared callees, cycles reachable from outside, a
+	// call of an undeclared subroutine; the deepest helper writes a variable
+	// that is only valid in some scopes, so an incomplete scope inference shows
+	choices := map[string][]string{
+		"recv": {"a", "b"},
+		"a":    {"", "b", "c"},
+		"b":    {"", "c", "d", "a", "nosuch"},
+		"c":    {"", "d", "a"},
+		"d":    {"", "a"},
+	}
 	body := func(name string) string {
-		c := callees[nondet.Choice("calls_"+name, len(callees))]
+		cs := choices[name]
+		c := cs[nondet.Choice("calls_"+name, len(cs))]
 		if c == "" {
 			return "  esi;\n"
 		}
@@ -124,10 +135,12 @@ func VerifDeterministic() {
 	subs := []string{
 		"sub a {\n" + body("a") + "}\n",
 		"sub b {\n" + body("b") + "}\n",
+		"sub c {\n" + body("c") + "  set req.http.C = \"1\";\n}\n",
+		"sub d {\n" + body("d") + "  set beresp.http.D = \"1\";\n}\n",
 		"sub vcl_recv {\n#FASTLY RECV\n" + body("recv") + "  set req.http.A = req.http.undefined.x;\n}\n",
 		"acl unused_acl {\n  \"10.0.0.0\"/8;\n}\ntable unused_table {\n  \"k\": \"v\",\n}\n",
 	}
-	perms := [][]int{{0, 1, 2, 3}, {1, 0, 2, 3}, {2, 1, 0, 3}, {3, 2, 1, 0}, {1, 2, 3, 0}, {2, 0, 3, 1}}
+	perms := [][]int{{0, 1, 2, 3, 4, 5}, {3, 2, 1, 0, 4, 5}, {4, 0, 1, 2, 3, 5}, {5, 4, 3, 2, 1, 0}, {1, 3, 0, 2, 5, 4}, {2, 0, 3, 1, 4, 5}}
 	render := func(p []int) string {
 		var sb strings.Builder
 		for _, k := range p {
@@ -139,9 +152,6 @@ func VerifDeterministic() {
 	nondet.Assert(ok, "the program does not parse")
 	again, _ := dtLint(render(perms[0]), nil)
 	p := perms[nondet.Choice("perm", len(perms))]
-	nondet.MapOrder(true)
-	other, _ := dtLint(render(p), nil)
-	nondet.MapOrder(false)
 	same := func(x, y []string) bool {
 		if len(x) != len(y) {
 			return false
@@ -153,8 +163,21 @@ func VerifDeterministic() {
 		}
 		return true
 	}
-	nondet.Observe("diagnostics", len(base), len(other))
 	nondet.Assert(same(base, again), "linting the same program twice reports different diagnostics")
-	nondet.Assert(same(base, other), "permuting the subroutine declarations (or another map iteration order) changes the diagnostics")
+	// under the engine the map iteration order is one of the modelled orders; natively it is Go's
+	// random order, so the replay repeats the run to meet the order-dependent outcome
+	rounds := 1
+	if nondet.Native() {
+		rounds = 64
+	}
+	for r := 0; r < rounds; r++ {
+		nondet.MapOrder(true)
+		other, _ := dtLint(render(p), nil)
+		nondet.MapOrder(false)
+		if r == 0 {
+			nondet.Observe("diagnostics", len(base), len(other))
+		}
+		nondet.Assert(same(base, other), "permuting the subroutine declarations (or another map iteration order) changes the diagnostics")
+	}
 	nondet.Cover("checked")
 }
